@@ -15,6 +15,14 @@ CHECKS = {
    text="Same symbolic step as C01: the events returned by the real doSync/doUpdate/doRefilter are replayed in order on the symbolic pre-state; z3 shows every event is well-formed (create on absent, update on present with strictly newer version, delete on present), that the replay result equals the post-state entry for entry, and that an unchanged cache emits no event, for every input within the bound.",
    note="Bounds as C01 (quick N,L<=2; thorough N,L<=3). The publish-exactly clauses at controller/filter-subscription level are covered by the C03/C06 harnesses.",
    ref="DESIGN.md §4 C02"),
+ "C18": dict(
+   text="The real Accept methods of filter.Null/All/Not/And/Or/NSName/Labels/LabelSelector/Selector (and the k8s labels code they call: SelectorFromSet, LabelSelectorAsSelector, Requirement.Matches, internalSelector.Matches) are executed symbolically on filter terms with solver-chosen structure and symbolic leaf arguments, against a symbolic object (namespace, name, label map with symbolic keys/values); z3 shows Accept equals an independent reference evaluator written from the property text, and that a second Accept returns the same value, for every value within the bound.",
+   note="Bounds: combinator terms to depth 3 with arity <=2 (thorough 3) over arbitrary leaf filters; NSName with <=3 (4) entries, both-empty entries assumed away as the property says; label maps <=2 pairs; LabelSelector with <=1 (2) matchLabels and <=2 matchExpressions (In/NotIn/Exists/DoesNotExist, <=2 values). labels.NewRequirement's syntax validation is stubbed (all keys/values assumed syntactically valid).",
+   ref="DESIGN.md §4 C18"),
+ "C19": dict(
+   text="The seven real PodsFilter constructors, ingress.ServicesFilter, pod.NodeFilter, event.InvolvedFilter/InvolvedObjectFilter and service.SelectorMatchFilter are executed symbolically on <=2-3 symbolic workloads (symbolic namespaces, names, selectors, template labels) and a symbolic candidate object of a solver-chosen kind; z3 shows Accept equals the ownership rule written from the property text for every value within the bound.",
+   note="Bounds: quick W<=2 workloads with matchLabels-only selectors plus W<=1 with one matchExpression; thorough W<=3 / W<=2 with expressions; ingress <=2 ingresses with default backend and <=1 (2) rules x 1 path; label maps <=2 pairs. Workload namespaces are assumed non-empty (namespaced API objects). Known finding F6 (replication controller filter ignores the namespace) is listed in KNOWN_FINDINGS.txt.",
+   ref="DESIGN.md §4 C19"),
 }
 NOT_APPLICABLE = {}
 PENDING = "check under construction in this session: harness not yet registered (no claim is made)"
@@ -29,7 +37,7 @@ def main():
           "quick_cmd": "./check %s quick" % pid,
           "thorough_cmd": "./check %s thorough" % pid,
           "evidence_file": "/verif/evidence/%s.json" % pid,
-          "replay_cmd_template": "./replay %s {path}" % pid,
+          "replay_cmd_template": "./replay.sh %s {path}" % pid,
           "engine": "gosym",
           "level_claimed": {"category": c.get("category", "model_checking"), "text": c["text"], "design_ref": c["ref"]},
           "level_note": BASE_NOTE + c["note"],
